@@ -20,6 +20,10 @@ OC = "magpylib/_src/obj_classes/"
 IC_ = "magpylib/_src/input_checks.py"
 CO_ = "magpylib/_src/obj_classes/class_Collection.py"
 MUTANTS = [
+    ("C15", "circle-axis-zero-radius-unguarded", FD + "field_BH_circle.py", "        mask4 = mask3 * ~mask1  # only relevant if not also case1", "        mask4 = mask3", "red"),
+    ("C15", "circle-general-case-includes-axis", FD + "field_BH_circle.py", "    mask5 = ~np.logical_or(np.logical_or(mask1, mask2), mask3)", "    mask5 = ~np.logical_or(mask1, mask2)", "red"),
+    ("C15", "cuboid-zero-size-unguarded", FD + "field_BH_cuboid.py", "    mask_gen = mask_pol_not_null & mask_dim_not_null & mask_not_edge", "    mask_gen = mask_pol_not_null & mask_not_edge", "red"),
+    ("C15", "sphere-outside-includes-surface-of-zero-sphere", FD + "field_BH_sphere.py", "    out = r > r_sphere", "    out = r >= r_sphere", "red"),
     ("C11", "add-commit-while-validating", CO_, "            if obj._parent is not None and not override_parent:\n                raise MagpylibBadUserInput(", "            if obj._parent is None:\n                obj._parent = self\n            if obj._parent is not self and not override_parent:\n                raise MagpylibBadUserInput(", "red"),
     ("C11", "children-setter-view-update-dropped", CO_, "        self._children = []\n        self._update_src_and_sens()\n", "        self._children = []\n", "red"),
     ("C11", "remove-forgets-parent-reset", CO_, "                rec_obj_remover(self, child)\n                child._parent = None\n", "                rec_obj_remover(self, child)\n", "red"),
